@@ -56,7 +56,8 @@ func c09Token(seed uint64, authority refdl.Block, blocks []refdl.Block, withID b
 	_, priv := hx.Keys(1)
 	var b biscuit.Builder
 	if withID {
-		b = biscuit.NewBuilder(priv, biscuit.WithRNG(hx.NewRNG(seed)), biscuit.WithRootKeyID(7))
+		// identifier 0 (the zero value, easily confused with "absent") or 7
+		b = biscuit.NewBuilder(priv, biscuit.WithRNG(hx.NewRNG(seed)), biscuit.WithRootKeyID(uint32(7*((seed>>1)%2))))
 	} else {
 		b = biscuit.NewBuilder(priv, biscuit.WithRNG(hx.NewRNG(seed)))
 	}
@@ -82,11 +83,11 @@ func c09Token(seed uint64, authority refdl.Block, blocks []refdl.Block, withID b
 
 func c09Describe(tok *biscuit.Biscuit, rootOK, rootBad int) string {
 	var obs []string
-	// key selection by identifier: id 7 -> right key, default -> wrong key, and the reverse table
+	// key selection by identifier: id 0 or 7 -> right key, default -> wrong key, and the reverse table
 	right, wrong := rootPub(rootOK), rootPub(rootBad)
 	for ti, src := range []biscuit.PublickKeyByIDProjection{
-		biscuit.WithRootPublicKeys(map[uint32]ed25519.PublicKey{7: right}, &wrong),
-		biscuit.WithRootPublicKeys(map[uint32]ed25519.PublicKey{7: wrong}, &right),
+		biscuit.WithRootPublicKeys(map[uint32]ed25519.PublicKey{0: right, 7: right}, &wrong),
+		biscuit.WithRootPublicKeys(map[uint32]ed25519.PublicKey{0: wrong, 7: wrong}, &right),
 		biscuit.WithRootPublicKeys(map[uint32]ed25519.PublicKey{8: right}, nil),
 	} {
 		_, err := tok.AuthorizerFor(src, hx.LongLimits)
